@@ -56,7 +56,7 @@ type subSlot struct {
 
 type snap struct {
 	v   []string // VerifDump of the base (internal node graph: tree, bytes, modes, owners, link counts)
-	api []string // fsx.Dump of the base through its public API as administrator, with mtimes
+	api []string // one Lstat line per entry through the public API of the base, as administrator: type, mode, owner, mtime, size, link count
 }
 
 type sys struct {
@@ -68,6 +68,8 @@ type sys struct {
 	ro       *rofs.RoFS
 	f        [2]slot
 	sub      subSlot
+
+	fullCheck bool // Reset also compares base and twin with the full lib/fsx dump
 
 	rnd      int
 	lastKey  string
@@ -81,7 +83,7 @@ func (s *sys) Close()                {}
 func (s *sys) Key() string           { return s.lastKey }
 
 // setupPaths is the tree every base holds; every node gets fsx.FixedTime.
-func build(name string) (hooked, error) {
+func build(name string) (hooked, snap, error) {
 	dirs := []avfs.DirInfo{{Path: "/tmp", Perm: 0o777}}
 
 	var v hooked
@@ -95,10 +97,13 @@ func build(name string) (hooked, error) {
 		}
 	})
 	if k != "" || v == nil {
-		return nil, fmt.Errorf("constructor of %s: %s %s", name, k, msg)
+		return nil, snap{}, fmt.Errorf("constructor of %s: %s %s", name, k, msg)
 	}
 
-	var err error
+	var (
+		err error
+		sn  snap
+	)
 
 	step := func(what string, e error) {
 		if e != nil && err == nil {
@@ -139,17 +144,24 @@ func build(name string) (hooked, error) {
 		// every node must now carry the fixed time (otherwise twin comparisons
 		// of FileInfo values would be meaningless)
 		// (the time of a symbolic link itself cannot be set through the API)
-		for _, l := range apiDump(v, name) {
+		sn.v = v.VerifDump()
+		sn.api = apiDump(v, sn.v)
+
+		for _, l := range sn.api {
+			if l == "/ !lstat:ENOENT" && name == "OrefaFS" {
+				continue // the OrefaFS root is not addressable
+			}
+
 			if strings.Contains(l, " !") || (!isLinkLine(l) && !strings.Contains(l, fmt.Sprintf(" t%d", fsx.FixedTime.UnixNano()))) {
 				step("fixed mtimes", fmt.Errorf("unexpected dump line %q", l))
 			}
 		}
 	})
 	if k != "" {
-		return nil, fmt.Errorf("setup of %s: %s %s", name, k, msg)
+		return nil, snap{}, fmt.Errorf("setup of %s: %s %s", name, k, msg)
 	}
 
-	return v, err
+	return v, sn, err
 }
 
 // apiRoots: MemFS is dumped from "/"; the OrefaFS root is not addressable, so
@@ -173,10 +185,47 @@ func apiRoots(v hooked, name string) []string {
 	return roots
 }
 
-func apiDump(v hooked, name string) []string {
+// fullDump is the canonical public-API dump of lib/fsx with mtimes (used once
+// per run to validate the setup; too slow for every call).
+func fullDump(v hooked, name string) []string {
 	var out []string
 	for _, r := range apiRoots(v, name) {
 		out = append(out, fsx.Dump(v, r, fsx.DumpOpts{Mtime: true})...)
+	}
+
+	return out
+}
+
+// apiDump adds what the internal dump lacks, the modification times, and
+// cross-checks it through the public API: one Lstat per entry of the internal
+// dump, taken directly on the base (whose user is the administrator).
+func apiDump(v hooked, lines []string) []string {
+	out := make([]string, 0, len(lines))
+
+	for _, l := range lines {
+		pth := dumpPath(l)
+
+		fi, err := v.Lstat(pth)
+		if err != nil {
+			out = append(out, pth+" !lstat:"+fsx.ErrKind(err))
+
+			continue
+		}
+
+		m := fi.Mode()
+		t := "f"
+
+		switch {
+		case m.IsDir():
+			t = "d"
+		case m&fs.ModeSymlink != 0:
+			t = "l"
+		case m&fs.ModeType != 0:
+			t = "o"
+		}
+
+		st := v.ToSysStat(fi)
+		out = append(out, fmt.Sprintf("%s %s %s %d:%d t%d sz%d n%d", pth, t, fsx.ModeString(m), st.Uid(), st.Gid(), fi.ModTime().UnixNano(), fi.Size(), st.Nlink()))
 	}
 
 	return out
@@ -225,11 +274,13 @@ func (s *sys) Reset() error {
 
 	var err error
 
-	if s.base, err = build(s.name); err != nil {
+	var sn, tsn snap
+
+	if s.base, sn, err = build(s.name); err != nil {
 		return err
 	}
 
-	if s.tw, err = build(s.name); err != nil {
+	if s.tw, tsn, err = build(s.name); err != nil {
 		return err
 	}
 
@@ -238,14 +289,21 @@ func (s *sys) Reset() error {
 	s.sub = subSlot{}
 	s.haveSnap = false
 
-	sn, k, msg := s.snapshot()
-	if k != "" {
-		return fmt.Errorf("initial snapshot: %s %s", k, msg)
-	}
-
-	tsn := snap{v: s.tw.VerifDump(), api: apiDump(s.tw, s.name)}
 	if a, b := append(append([]string{}, sn.v...), maskLinkTimes(sn.api)...), append(append([]string{}, tsn.v...), maskLinkTimes(tsn.api)...); strings.Join(a, "\n") != strings.Join(b, "\n") {
 		return fmt.Errorf("base and twin differ after setup: %s", fsx.DiffLines(a, b))
+	}
+
+	if s.fullCheck {
+		a, b := maskLinkTimes(fullDump(s.base, s.name)), maskLinkTimes(fullDump(s.tw, s.name))
+		if strings.Join(a, "\n") != strings.Join(b, "\n") {
+			return fmt.Errorf("base and twin differ after setup (full dump): %s", fsx.DiffLines(a, b))
+		}
+
+		for _, l := range a {
+			if strings.Contains(l, " !") && !(s.name == "OrefaFS" && strings.HasPrefix(l, "/ !")) {
+				return fmt.Errorf("setup: full dump of the base reports %q", l)
+			}
+		}
 	}
 
 	s.lastSnap, s.haveSnap = sn, true
@@ -258,7 +316,7 @@ func (s *sys) Reset() error {
 func (s *sys) snapshot() (sn snap, kind, msg string) {
 	kind, msg = fsx.Guard(func() {
 		sn.v = s.base.VerifDump()
-		sn.api = apiDump(s.base, s.name)
+		sn.api = apiDump(s.base, sn.v)
 	})
 
 	return
@@ -734,7 +792,7 @@ func (s *sys) Step(op int) bfs.StepResult {
 		return bfs.StepResult{Changed: true, Broken: true, Key: "BROKEN|nodump|" + o.String(), Outcome: via + "." + o.Method + "/" + real.Kind + "+nodump", Viols: viols}
 	}
 
-	baseChanged := false
+	baseChanged, notRefused := false, false
 
 	if what, diff := changeClass(before, after); what != "" {
 		baseChanged = true
@@ -773,6 +831,8 @@ func (s *sys) Step(op int) bfs.StepResult {
 			if real.HasFile && !isNilPtr(real.File) {
 				what = "ok+handle"
 			}
+
+			notRefused = true
 
 			add("not-refused", what, detail{Expected: "non-nil error with errors.Is(err, fs.ErrPermission)", Observed: "nil error"})
 		case errors.Is(real.Err, fs.ErrPermission):
@@ -907,6 +967,15 @@ func (s *sys) Step(op int) bfs.StepResult {
 		s.haveSnap = false
 
 		return bfs.StepResult{Changed: true, Broken: true, Key: "BROKEN|" + hash(strings.Join(after.v, "\n")), Outcome: outc + "+base-changed", Viols: viols}
+	}
+
+	if notRefused {
+		// the property is already violated on this history (a mutating call
+		// went through): what was handed out is pooled for the record, but the
+		// futures of this state are not explored
+		s.haveSnap = false
+
+		return bfs.StepResult{Changed: true, Broken: true, Key: "BROKEN|not-refused|" + s.key(after), Outcome: outc + "+not-refused", Viols: viols}
 	}
 
 	if desync {
